@@ -33,9 +33,74 @@ def cases(ctx):
         cfg["B"] = rng.choice([None, 0, 8])
         cfg["pp"] = rng.choice([None, None, ["10.0.0.0/8", "100.64.0.0/10"]])
         yield {"kind": "hist", "cfg": cfg, "n": 300, "hseed": rng.getrandbits(32), "warmup": ctx.pick(6000, 30000)}
+    for fcfg in ipref.file_configs(rng, ctx.per_shard(ctx.pick(12, 400)), quick=ctx.quick):
+        yield {"kind": "nosalt_dir", "fcfg": fcfg, "lseed": rng.getrandbits(32), "bad": rng.choice([1, 2, 2, 3])}
     for fcfg in ipref.file_configs(rng, ctx.per_shard(ctx.pick(30, 900)), quick=ctx.quick):
         yield {"kind": "files", "fcfg": fcfg, "lseed": rng.getrandbits(32), "nfiles": rng.randint(2, 6),
                "cli": (not ctx.quick) and rng.random() < 0.1}
+
+
+def _nosalt_dir(ctx, case):
+    """No salt given: the run picks one and reports it.  Every file of the run - also those processed
+    after a file that failed - must carry the mapping of exactly that reported salt."""
+    import logging
+
+    nc = load.nc()
+    fcfg = dict(case["fcfg"])
+    rng = random.Random(case["lseed"])
+    files = [c02.gen_ip_lines(rng, fcfg, rng.randint(2, 8), near=False) for _ in range(5)]
+    texts = ["".join(lines.text_of(s) + "\n" for s in f) for f in files]
+    bad = case.get("bad", 2)
+
+    class Cap(logging.Handler):
+        def __init__(self):
+            super().__init__(level=logging.WARNING)
+            self.salt = None
+
+        def emit(self, r):
+            if self.salt is None and "salt" in str(r.msg).lower() and r.args:
+                self.salt = r.args[0] if isinstance(r.args, tuple) else None
+
+    cap = Cap()
+    pp, pa = fcfg.get("pp"), fcfg.get("pa")
+    with tempfile.TemporaryDirectory(dir=os.path.join(load.VERIF, ".work")) as d:
+        os.makedirs(os.path.join(d, "in", "m"))
+        names = ["a0.cfg", "a1.cfg", "m/b2.cfg", "m/b3.cfg", "z4.cfg"]
+        for i, (n, t) in enumerate(zip(names, texts)):
+            with open(os.path.join(d, "in", n), "wb") as f:
+                f.write((b"\xff\xfe\x80 undecodable\n" if i == bad else b"") + t.encode("utf-8"))
+        logging.getLogger().addHandler(cap)
+        try:
+            nc.af.anonymize_files(os.path.join(d, "in"), os.path.join(d, "out"), False, True, salt=None,
+                                  preserve_prefixes=None if pp is None else list(pp), preserve_networks=None if pa is None else list(pa),
+                                  preserve_suffix_v4=fcfg.get("B4"), preserve_suffix_v6=fcfg.get("B6"))
+        finally:
+            logging.getLogger().removeHandler(cap)
+        ctx.ev()
+        ctx.count("nosalt_directory_runs")
+        if not isinstance(cap.salt, str):
+            ctx.violation(case, "generated-salt-not-reported", "run without salt did not report the generated salt in a WARNING record")
+            return
+        ref = ipref.file_anonymizer(dict(fcfg, salt=cap.salt))
+        for i, (n, t) in enumerate(zip(names, texts)):
+            if i == bad:
+                continue
+            try:
+                with open(os.path.join(d, "out", n), encoding="utf-8") as f:
+                    got = f.read()
+            except OSError:
+                ctx.violation(case, "output-missing", "no output for %s in a run with one failing file" % n)
+                return
+            exp = ipref.run_io(ref, t)
+            ctx.count("file_order_partition_runs")
+            if got != exp:
+                la, lb = got.splitlines(), exp.splitlines()
+                j = next((k for k, (x, y) in enumerate(zip(la, lb)) if x != y), 0)
+                ctx.violation(case, "mapping-changes-within-run",
+                              "run without salt (reported %r), failing file %s: %s has %r but the reported salt gives %r"
+                              % (cap.salt, names[bad], n, la[j] if j < len(la) else None, lb[j] if j < len(lb) else None))
+                return
+    ctx.distinct(("nosalt", case["lseed"]))
 
 
 def gen_history(rng, cfg, n):
@@ -68,6 +133,8 @@ def check_case(ctx, case):
         return _hist(ctx, case)
     if case["kind"] == "files":
         return _files(ctx, case)
+    if case["kind"] == "nosalt_dir":
+        return _nosalt_dir(ctx, case)
     raise HarnessError("unknown kind")
 
 
